@@ -708,7 +708,12 @@ func runHistoryForged(hist []uint64, forged map[int]uint64) error {
 	var items []item
 	add := func(ts uint64, isForged bool, seq byte) {
 		b := signedAt(ts, seq)
-		if isForged {
+		if isForged && (ts+uint64(seq))%2 == 1 {
+			// not even signed: a v2 frame without the signed flag (a peer that stopped signing, an unkeyed station on
+			// the same link) - refused like any other unauthenticated frame, and as little the window's business
+			f := ref.Frame{V2: true, Seq: seq, Sys: 9, Comp: 8, ID: 70001, Payload: []byte{seq, 1}, Checksum: 0x1234}
+			b = f.Bytes()
+		} else if isForged {
 			b[len(b)-1] ^= 0x5A
 		}
 		stream = append(stream, b...)
